@@ -156,7 +156,7 @@ func ZZ_C04_identity() {
 	before := append([]byte{}, unsigned.Bytes()...)
 	h := tx.Hash()
 	var progs []*pg.Program
-	for i := 0; i < nd.Choose("otherPrograms", 2); i++ {
+	for i, zzn := 0, nd.Choose("otherPrograms", 2); i < zzn; i++ {
 		progs = append(progs, &pg.Program{Code: nd.Bytes("otherCode", 2), Parameter: nd.Bytes("otherParam", 2)})
 	}
 	other := CreateTransaction(tx.Version(), tx.TxType(), tx.PayloadVersion(), tx.Payload(), tx.Attributes(), tx.Inputs(), tx.Outputs(), tx.LockTime(), progs)
